@@ -461,3 +461,24 @@ def inline_calls(ctx: Ctx, f: FuncInfo, e: ast.AST, depth: int = 2) -> ast.AST:
         return node
 
     return clone(e, {}, depth)
+
+
+def short_circuit_facts(node: ast.AST) -> "list[tuple[ast.expr, bool]]":
+    """(expression, value) pairs known when `node` is evaluated, from the expression context alone: earlier operands of an
+    enclosing `or` are false / of an `and` are true; the test of an enclosing conditional expression has the arm's value."""
+    out: list[tuple[ast.expr, bool]] = []
+    child = node
+    p = getattr(node, "parent", None)
+    while p is not None and isinstance(p, ast.expr):
+        if isinstance(p, ast.BoolOp):
+            i = next((k for k, v in enumerate(p.values) if v is child), None)
+            if i:
+                for v in p.values[:i]:
+                    out.append((v, isinstance(p.op, ast.And)))
+        elif isinstance(p, ast.IfExp):
+            if child is p.body:
+                out.append((p.test, True))
+            elif child is p.orelse:
+                out.append((p.test, False))
+        child, p = p, getattr(p, "parent", None)
+    return out
